@@ -92,8 +92,51 @@ pub fn gen_pair(ch: &mut Chooser) -> Pair {
     let mut labels = vec![];
     let a = gen_program(ch, &mut labels, true, false);
     let b = gen_program(ch, &mut labels, false, true);
+    let mut a = a;
+    let mut b = b;
     let (mut ia, mut ib) = (0, 0);
     let mut schedule = vec![];
+    // scripted openings: the situations in which per-thread or per-process state would be confused
+    match ch.below(8) {
+        0 => {
+            // both instances define the same keyword with different meanings, then submit the identical use
+            let (first, second) = if ch.chance(1, 2) { (0, 1) } else { (1, 0) };
+            a.splice(0..0, [MACROS[first].1.to_string(), "(sq 3)".to_string()]);
+            b.splice(0..0, [MACROS[second].1.to_string(), "(sq 3)".to_string()]);
+            schedule.extend([true, false, true, false]);
+            ia = 2;
+            ib = 2;
+            labels.push("same-keyword-different-meaning");
+            labels.push("a-defines-syntax");
+            labels.push("b-defines-syntax");
+        }
+        1 => {
+            // A privately redefines a bundled keyword and uses it; B submits the identical use of the bundled one
+            let k = 4 + ch.below(3);
+            let use_ = match k {
+                4 => "(unless #f 6 7)",
+                5 => "(cond (#f 1) (else 2))",
+                _ => "(let ((q 1)) q)",
+            };
+            a.splice(0..0, [MACROS[k].1.to_string(), use_.to_string()]);
+            b.insert(0, use_.to_string());
+            schedule.extend([true, true, false]);
+            ia = 2;
+            ib = 1;
+            labels.push("same-keyword-different-meaning");
+            labels.push("a-defines-syntax");
+        }
+        2 => {
+            // A runs a program file (its directory holds a library); B, fed through eval, imports that library name
+            a.insert(0, "@file".to_string());
+            b.insert(0, "(import (onlya util))".to_string());
+            schedule.extend([true, false]);
+            ia = 1;
+            ib = 1;
+            labels.push("a-runs-a-program-file");
+        }
+        _ => {}
+    }
     while ia < a.len() || ib < b.len() {
         let take_a = if ia >= a.len() {
             false
@@ -195,6 +238,15 @@ fn run_interleaved(p: Pair, skip_a_syntax: bool) -> Interleaved {
                 if skip_a_syntax && f.starts_with("(define-syntax") {
                     continue;
                 }
+                if f == "@file" {
+                    let dir = std::env::temp_dir().join(format!("rv-c19-{}-{:?}", std::process::id(), std::thread::current().id()));
+                    let _ = std::fs::create_dir_all(dir.join("onlya"));
+                    let _ = std::fs::write(dir.join("onlya/util.sld"), "(define-library (onlya util) (export answer) (begin (define answer 42)))\n");
+                    let _ = std::fs::write(dir.join("main.scm"), "(import (scheme base) (onlya util))\n(+ answer 1)\n");
+                    let _ = sa.eval_file(&dir.join("main.scm"));
+                    let _ = std::fs::remove_dir_all(&dir);
+                    continue;
+                }
                 let _ = sa.eval(f);
             } else {
                 out.b.push(sb.eval(&p.b[ib]));
@@ -219,7 +271,15 @@ pub fn judge(p: &Pair) -> Report {
     let a_defs: Vec<&str> = p.a.iter().filter(|f| f.starts_with("(define")).map(|f| f.as_str()).collect();
     rep.nontrivial = !a_defs.is_empty() && p.b.len() >= 2;
     let alone = run_alone(p.b.clone());
+    let cwd_before = std::env::current_dir().ok();
     let inter = run_interleaved(p.clone(), false);
+    let cwd_after = std::env::current_dir().ok();
+    if cwd_before != cwd_after {
+        rep.fail("process-working-directory-changed", format!("working directory {:?} before the two programs ran, {:?} afterwards", cwd_before, cwd_after));
+        if let Some(d) = &cwd_before {
+            let _ = std::env::set_current_dir(d);
+        }
+    }
     rep.note = inter.b.iter().map(|o| o.show()).collect::<Vec<_>>().join(" | ");
     if rep.note.len() > 600 {
         rep.note.truncate(600);
@@ -260,11 +320,13 @@ pub fn run(ctx: &Ctx) {
     ctx.set_rule(
         "pairs of programs A and B from the program generators over one shared pool of names (variables, procedures, \
          macro keywords incl. the bundled ones, one library name registered with different contents in each instance), A \
-         may contain failing forms; their forms are interleaved at random over two interpreter instances created on one \
+         may contain failing forms and run a program file; scripted openings put the same macro keyword with different \
+         meanings (private definitions in both, or a private redefinition of a bundled keyword in A) in front of textually \
+         identical uses; their forms are interleaved at random over two interpreter instances created on one \
          thread, with extra instances created at random points and asked for (quote ok). Oracle (self-differential): B's \
          per-form outcomes in the interleaving equal B's outcomes when run alone in a fresh thread; creating an instance \
          never fails. Non-trivial = A defines something and B has >= 2 forms.",
     );
-    let cases = ctx.tier.pick(2_000, 30_000);
+    let cases = ctx.tier.pick(3_000, 30_000);
     ctx.random("pairs", cases, 500, |ch| judge(&gen_pair(ch)));
 }
